@@ -390,4 +390,25 @@ example : (RegionState.init .EU868).plan = .dyn (planOf exPlan) ∧ regionWF (Re
 
 #print axioms tieA_select_tx_channel_legal
 
+/-- **never spins, on the regenerated code**: in every well-formed state and for every uplink data rate there is a
+draw value (below 64) under which the CURRENT source of `DynamicChannelPlan::select_tx_channel` — both frame kinds,
+the fallback to the default channels included — returns: no panic, and the redraw loops do not use up their fuel
+(`C09.select_accept_nonempty` carried over) -/
+theorem tieA_select_accept_nonempty (rs : RegionState) (p : Gen.PlanSelectFn.DynamicChannelPlan)
+    (hplan : rs.plan = .dyn (planOf p)) (hw : PlanWF p) (hwf : regionWF rs = true) (dr : DR)
+    (hdr : isUplinkDatarate rs.id dr.toInt.toNat = true) (frame : Gen.PlanSelectFn.Frame) :
+    ∃ v, v < 64 ∧ ∀ {σ : Type} (s : σ),
+      (@Gen.PlanSelectFn.DynamicChannelPlan.select_tx_channel (regOf rs.id) σ (rngOf (constGen v)) (fuelOf loopFuel) p s dr frame).isSome = true := by
+  obtain ⟨v, hv, h⟩ := select_accept_nonempty rs dr (frameOf frame) hwf hdr
+  refine ⟨v, hv, ?_⟩
+  intro σ s
+  obtain ⟨a, ha, _⟩ := h (σ := σ) s
+  have ht := tieA_dynamic_select_tx_channel (constGen v) rs p hplan hw dr frame s
+  rw [ha] at ht
+  cases hsel : @Gen.PlanSelectFn.DynamicChannelPlan.select_tx_channel (regOf rs.id) σ (rngOf (constGen v)) (fuelOf loopFuel) p s dr frame with
+  | none => rw [hsel] at ht; cases ht
+  | some o => rfl
+
+#print axioms tieA_select_accept_nonempty
+
 end C09
